@@ -252,13 +252,24 @@ DiscCases == [layer : {"msg"}, code : {Disconnect}, state : States, reason : {"e
 SmallExpect(c) == {"accept", "ignore"}
 
 \* --- handshake (read by readStatus before the read loop starts) ---
-HsCases == [layer : {"msg"}, code : {Handshake}, state : States, net : {"ok", "other"},
-            genesis : {"absent", "short", "ok", "wrong"}, oldgen : {"absent", "ok", "long"},
-            ts : {"now", "skewed", "min", "max"}, ver : {"empty", "ok", "garbage", "long"}]
-\* a handshake WITHOUT a genesis hash passes the genesis check of a node that has no old genesis
-\* (GenesisInfo.EqualAny compares the zero hash with the absent old genesis): modelled as the code does it
+\* intgen: whether the RECEIVING node has an intermediate genesis (GenesisInfo.OldGenesis # nil: it inserted a NewGenesis
+\* block, was fast-synced over one, or was started with a predefined intermediate genesis) - a state class of its own,
+\* because GenesisInfo.EqualAny compares the peer's optional old genesis with the node's optional old genesis.
+\* genesis / oldgen: "ok" = the node's current genesis resp. a random well-formed hash; "owngen" / "ownold" = the node's
+\* current / old genesis hash in the old-genesis field (what an upgraded peer really sends); "zero" = 32 zero bytes.
+HsCases == {c \in [layer : {"msg"}, code : {Handshake}, state : States, intgen : {"none", "has"}, net : {"ok", "other"},
+                   genesis : {"absent", "short", "ok", "wrong", "ownold"},
+                   oldgen : {"absent", "ok", "long", "owngen", "ownold", "zero"},
+                   ts : {"now", "skewed", "min", "max"}, ver : {"empty", "ok", "garbage", "long"}] :
+               c.intgen = "none" => (c.genesis # "ownold" /\ c.oldgen # "ownold")}
+\* a handshake WITHOUT a genesis hash (or with an all-zero old genesis) passes the genesis check of a node that has no old
+\* genesis (GenesisInfo.EqualAny compares with the zero hash of the absent old genesis): modelled as the code does it
+HsGenesisMatch(c) == \/ c.genesis = "ok"
+                     \/ c.oldgen = "owngen"
+                     \/ (c.intgen = "has" /\ (c.oldgen = "ownold" \/ c.genesis = "ownold"))
+                     \/ (c.intgen = "none" /\ (c.genesis = "absent" \/ c.oldgen = "zero"))
 HsExpect(c) == IF c.ver = "garbage" THEN {"rejectDecode"}        \* invalid UTF-8 in a proto3 string
-               ELSE IF c.net = "ok" /\ c.genesis \in {"ok", "absent"} /\ c.ts = "now" THEN {"accept"}
+               ELSE IF c.net = "ok" /\ HsGenesisMatch(c) /\ c.ts = "now" THEN {"accept"}
                ELSE {"rejectValidation"}
 
 MsgCases == PBCases \cup PPCases \cup VoteCases \cup GBHCases \cup GBRCases \cup GFRCases \cup BRCases
